@@ -87,7 +87,9 @@ def make_program(rng, hostile):
         lines.append((n, [("data", [("q", hostile), ("u", hostile.replace(":", ";").replace(",", ";").replace('"', ""))]),
                           ("read", [("var", "H$"), ("var", "G$")])]))
     elif where == "rem":
-        lines.append((n, [("rem", " " + hostile + rng.choice(["", ' "', ' "" "']), rng.choice(["REM", "'"]))]))
+        # unbalanced quotation marks before and after the hostile text (a comment is not a string context)
+        lines.append((n, [("rem", rng.choice([" ", ' 5 1/4" DISK - ', ' "" " ', ' "']) + hostile + rng.choice(["", ' "', ' "" "']),
+                           rng.choice(["REM", "'"]))]))
     elif where == "print":
         lines.append((n, [("print", [("e", ("str", hostile)), ("sep", ";"), ("e", ("var", "H$"))], None)]))
     n += 10
